@@ -20,29 +20,42 @@ VARIABLES fcase,      \* index of the trace record that holds the file
           topstart,   \* start offset of the top-level token being read
           offs,       \* start offsets of stack[1].items (parallel sequence)
           lastdata,   \* [start, len] of the most recent stream data
-          objs,       \* indirect objects found: seq of [n, g, off, val, data, via]   via = 0 direct, else container obj number
-          tails,      \* top-level items that are not part of an object: seq of [off, v]  (xref/trailer/startxref material)
           bad,        \* set of strings: structural errors met while scanning
           queue,      \* payloads still to lex: seq of [kind, n, bytes]
-          subs,       \* results of lexed payloads: seq of [kind, n, items, offs]
-          srcbytes,   \* bytes of the payload being lexed (<<>> while the file itself is the source)
+          srcbytes,   \* length of the payload being lexed (the bytes themselves are in TLC register 2)
           cursub,     \* [kind, n] of that payload
           secs,       \* cross-reference sections, newest first (computed once, when the scan is over)
           res,        \* object number -> what it resolves to (computed once)
-          indexed     \* secs and res have been computed
-filevars == <<fcase, phase, topstart, offs, lastdata, objs, tails, bad, queue, subs, srcbytes, cursub, secs, res, indexed>>
+          indexed,    \* secs and res have been computed
+          mem         \* object-stream number -> its members (computed once)
+filevars == <<fcase, phase, topstart, offs, lastdata, bad, queue, srcbytes, cursub, secs, res, indexed, mem>>
+
+(* What the scan COLLECTS is kept in TLC registers, not in the state (run with -workers 1): the collected objects grow
+   with the file, and a state that carried them would be fingerprinted once per byte scanned.  The registers are
+   written only by the scanning actions below, along the single path a trace validation follows; position, phase
+   and case index keep the states distinct.
+     2  bytes of the payload being lexed        3  objs: indirect objects found, seq of [n, g, off, val, data, via]
+     4  tails: top-level items outside objects, seq of [off, v] (xref / trailer / startxref material)
+     5  subs: lexed payloads, seq of [kind, n, ok, items, offs]    6  items of the current payload flushed so far *)
+objs == TLCGet(3)
+tails == TLCGet(4)
+subs == TLCGet(5)
 allvars == <<lexvars, filevars>>
 
 FB == Rec[fcase].bytes
-Cur == IF phase = "sub" THEN srcbytes ELSE FB
+\* the payload being lexed lives in TLC register 2 (set when the payload is started), not in the state: a state that
+\* carried 100 KB of payload would be fingerprinted once per byte (run with -workers 1)
+Cur == IF phase = "sub" THEN TLCGet(2) ELSE FB
 
 LexReset == /\ pos' = 1 /\ mode' = "top" /\ acc' = <<>> /\ aux' = Aux0 /\ stack' = <<[kind |-> "top", items |-> <<>>]>>
 FileIdle == /\ fcase = 0 /\ phase = "idle" /\ topstart = 1 /\ offs = <<>> /\ lastdata = [start |-> 0, len |-> 0]
-            /\ objs = <<>> /\ tails = <<>> /\ bad = {} /\ queue = <<>> /\ subs = <<>> /\ srcbytes = <<>>
-            /\ cursub = [kind |-> "", n |-> 0] /\ secs = <<>> /\ res = <<>> /\ indexed = FALSE
+            /\ bad = {} /\ queue = <<>> /\ srcbytes = 0
+            /\ TLCSet(3, <<>>) /\ TLCSet(4, <<>>) /\ TLCSet(5, <<>>) /\ TLCSet(6, [items |-> <<>>, offs |-> <<>>]) /\ TLCSet(2, <<>>)
+            /\ cursub = [kind |-> "", n |-> 0] /\ secs = <<>> /\ res = <<>> /\ indexed = FALSE /\ mem = <<>>
 FileStart(c) == /\ fcase' = c /\ phase' = "body" /\ topstart' = 1 /\ offs' = <<>> /\ lastdata' = [start |-> 0, len |-> 0]
-                /\ objs' = <<>> /\ tails' = <<>> /\ bad' = {} /\ queue' = <<>> /\ subs' = <<>> /\ srcbytes' = <<>>
-                /\ cursub' = [kind |-> "", n |-> 0] /\ secs' = <<>> /\ res' = <<>> /\ indexed' = FALSE
+                /\ bad' = {} /\ queue' = <<>> /\ srcbytes' = 0
+                /\ TLCSet(3, <<>>) /\ TLCSet(4, <<>>) /\ TLCSet(5, <<>>) /\ TLCSet(6, [items |-> <<>>, offs |-> <<>>]) /\ TLCSet(2, <<>>)
+                /\ cursub' = [kind |-> "", n |-> 0] /\ secs' = <<>> /\ res' = <<>> /\ indexed' = FALSE /\ mem' = <<>>
                 /\ LexReset
 
 (* ------------------------------ dictionary helpers ------------------------------ *)
@@ -75,6 +88,7 @@ StartsToken(b) == ~IsWs(b) /\ b # 37
 ScanStep ==
   /\ phase \in {"body", "sub"}
   /\ ~(TopLevel /\ mode = "top" /\ stack[1].items # <<>> /\ stack[1].items[Len(stack[1].items)] = [t |-> "kw", s |-> "endobj"] /\ phase = "body")
+  /\ ~(phase = "sub" /\ TopLevel /\ mode = "top" /\ stack[1].items # <<>> /\ stack[1].items[Len(stack[1].items)].t # "int")
   /\ LexStep(Cur)
   /\ topstart' = IF TopLevel /\ mode = "top" /\ pos <= Len(Cur) /\ StartsToken(Cur[pos]) THEN pos ELSE topstart
   /\ LET n0 == Len(stack[1].items) n1 == Len(stack'[1].items) IN
@@ -82,7 +96,7 @@ ScanStep ==
      /\ bad' = IF n1 < n0 /\ Len(stack') = 1 /\ Len(stack) = 1 THEN bad \cup {"stray R at top level"} ELSE bad
   /\ lastdata' = IF mode \in {"streol", "streol2"} /\ mode' = "top"
                  THEN [start |-> pos + 1, len |-> Top.items[Len(Top.items)].len] ELSE lastdata
-  /\ UNCHANGED <<fcase, phase, objs, tails, queue, subs, srcbytes, cursub, secs, res, indexed>>
+  /\ UNCHANGED <<fcase, phase, queue, srcbytes, cursub, secs, res, indexed, mem>>
 
 \* an indirect object is complete: move it out of the lexer's stack
 FlushObj ==
@@ -90,13 +104,13 @@ FlushObj ==
   /\ stack[1].items # <<>> /\ stack[1].items[Len(stack[1].items)] = [t |-> "kw", s |-> "endobj"]
   /\ LET it == stack[1].items  n == Len(it)
          ok == n >= 5 /\ IsNatTok(it[n - 4]) /\ IsNatTok(it[n - 3]) /\ it[n - 2] = [t |-> "kw", s |-> "obj"] /\ it[n - 1].t # "kw"
-     IN /\ objs' = IF ok THEN Append(objs, [n |-> IntOf(it[n - 4]), g |-> IntOf(it[n - 3]), off |-> offs[n - 4], val |-> it[n - 1],
+     IN /\ TLCSet(3, IF ok THEN Append(objs, [n |-> IntOf(it[n - 4]), g |-> IntOf(it[n - 3]), off |-> offs[n - 4], val |-> it[n - 1],
                                            data |-> IF it[n - 1].t = "stream" THEN lastdata ELSE [start |-> 0, len |-> 0], via |-> 0])
-                   ELSE objs
+                   ELSE objs)
         /\ bad' = IF ok THEN bad ELSE bad \cup {"malformed indirect object"}
-        /\ tails' = tails \o [x \in 1..(IF ok THEN n - 5 ELSE n) |-> [off |-> offs[x], v |-> it[x]]]
+        /\ TLCSet(4, tails \o [x \in 1..(IF ok THEN n - 5 ELSE n) |-> [off |-> offs[x], v |-> it[x]]])
   /\ stack' = <<[kind |-> "top", items |-> <<>>]>> /\ offs' = <<>>
-  /\ UNCHANGED <<pos, mode, acc, aux, fcase, phase, topstart, lastdata, queue, subs, srcbytes, cursub, secs, res, indexed>>
+  /\ UNCHANGED <<pos, mode, acc, aux, fcase, phase, topstart, lastdata, queue, srcbytes, cursub, secs, res, indexed, mem>>
 
 \* payload of a stream object: raw, or inflated by the zlib primitive when its only filter is FlateDecode
 PayloadOf(o) ==
@@ -110,24 +124,34 @@ ObjStms == SelectSeq(objs, LAMBDA o : o.val.t = "stream" /\ TypeIs(o.val, N_ObjS
 \* end of the file scan: queue the object streams (and whatever `extra` payloads the caller wants lexed)
 EndBody(extra) ==
   /\ phase = "body" /\ mode \in {"eof", "error"}
-  /\ tails' = tails \o [x \in 1..Len(stack[1].items) |-> [off |-> offs[x], v |-> stack[1].items[x]]]
+  /\ TLCSet(4, tails \o [x \in 1..Len(stack[1].items) |-> [off |-> offs[x], v |-> stack[1].items[x]]])
   /\ bad' = bad \cup (IF mode = "error" THEN {"lexical error in file body"} ELSE {}) \cup (IF Len(stack) # 1 THEN {"unclosed container at end of file"} ELSE {})
   /\ queue' = [x \in 1..Len(ObjStms) |-> [kind |-> "objstm", n |-> ObjStms[x].n, p |-> PayloadOf(ObjStms[x])]] \o extra
   /\ phase' = "next"
-  /\ UNCHANGED <<lexvars, fcase, topstart, offs, lastdata, objs, subs, srcbytes, cursub, secs, res, indexed>>
+  /\ UNCHANGED <<lexvars, fcase, topstart, offs, lastdata, srcbytes, cursub, secs, res, indexed, mem>>
 
 NextSub ==
   /\ phase = "next" /\ queue # <<>>
   /\ phase' = "sub" /\ queue' = Tail(queue) /\ LexReset /\ offs' = <<>> /\ topstart' = 1
-  /\ srcbytes' = queue[1].p.out /\ cursub' = [kind |-> queue[1].kind, n |-> queue[1].n]
+  /\ TLCSet(2, queue[1].p.out) /\ TLCSet(6, [items |-> <<>>, offs |-> <<>>])
+  /\ srcbytes' = Len(queue[1].p.out) /\ cursub' = [kind |-> queue[1].kind, n |-> queue[1].n]
   /\ bad' = IF queue[1].p.ok THEN bad ELSE bad \cup {"payload cannot be decoded"}
-  /\ UNCHANGED <<fcase, lastdata, objs, tails, subs, secs, res, indexed>>
+  /\ UNCHANGED <<fcase, lastdata, secs, res, indexed, mem>>
 
+\* payloads can be long (an object stream of a hundred dictionaries): completed top-level items are moved out of the
+\* lexer's stack as soon as the last one is not an integer (integers wait: `n g R` may still combine them)
+FlushSub ==
+  /\ phase = "sub" /\ TopLevel /\ mode = "top"
+  /\ stack[1].items # <<>> /\ stack[1].items[Len(stack[1].items)].t # "int"
+  /\ TLCSet(6, [items |-> TLCGet(6).items \o stack[1].items, offs |-> TLCGet(6).offs \o offs])
+  /\ stack' = <<[kind |-> "top", items |-> <<>>]>> /\ offs' = <<>>
+  /\ UNCHANGED <<pos, mode, acc, aux, fcase, phase, topstart, lastdata, bad, queue, srcbytes, cursub, secs, res, indexed, mem>>
 EndSub ==
   /\ phase = "sub" /\ mode \in {"eof", "error"}
-  /\ subs' = Append(subs, [kind |-> cursub.kind, n |-> cursub.n, ok |-> mode = "eof" /\ Len(stack) = 1, items |-> stack[1].items, offs |-> offs])
+  /\ TLCSet(5, Append(subs, [kind |-> cursub.kind, n |-> cursub.n, ok |-> mode = "eof" /\ Len(stack) = 1,
+                             items |-> TLCGet(6).items \o stack[1].items, offs |-> TLCGet(6).offs \o offs]))
   /\ phase' = "next"
-  /\ UNCHANGED <<lexvars, fcase, topstart, offs, lastdata, objs, tails, bad, queue, srcbytes, cursub, secs, res, indexed>>
+  /\ UNCHANGED <<lexvars, fcase, topstart, offs, lastdata, bad, queue, srcbytes, cursub, secs, res, indexed, mem>>
 
 (* ------------------------------ phase "done": pure functions of what was collected ------------------------------ *)
 ObjsOf(n) == SelectSeq(objs, LAMBDA o : o.n = n)
@@ -277,12 +301,10 @@ TrailerDict == IF Sections = <<>> THEN None ELSE Sections[1].trailer
 
 \* the ISO answer to "what is object n now": [found, val, data]
 MemberOf(stmN, idx, n) ==
-  LET S == {x \in 1..Len(objs) : objs[x].n = stmN /\ objs[x].via = 0} IN
-  IF S = {} THEN [found |-> FALSE]
-  ELSE LET stm == objs[CHOOSE x \in S : \A y \in S : objs[y].off <= objs[x].off]
-           ms == StmMembers(SubOf(stmN), stm)
-       IN IF idx + 1 <= Len(ms) /\ ms[idx + 1].n = n THEN [found |-> TRUE, val |-> ms[idx + 1].val, data |-> [start |-> 0, len |-> 0], offok |-> ms[idx + 1].offok]
-          ELSE [found |-> FALSE]
+  IF stmN \notin DOMAIN mem THEN [found |-> FALSE]
+  ELSE LET ms == mem[stmN] IN
+       IF idx + 1 <= Len(ms) /\ ms[idx + 1].n = n THEN [found |-> TRUE, val |-> ms[idx + 1].val, data |-> [start |-> 0, len |-> 0], offok |-> ms[idx + 1].offok]
+       ELSE [found |-> FALSE]
 ResolveRaw(n) ==
   LET e == EntryOf(n) IN
   IF e.ty = 1 THEN LET S == {x \in 1..Len(objs) : objs[x].n = n /\ objs[x].off - 1 = e.a /\ objs[x].via = 0} IN
@@ -294,10 +316,14 @@ Resolve(n) == IF n \in DOMAIN res THEN res[n] ELSE [found |-> FALSE]
 \* the two bookkeeping steps between the scan and the verdict
 Finish1 == /\ phase = "next" /\ queue = <<>> /\ ~indexed
            /\ secs' = Chain(StartXref, {}, 16) /\ phase' = "index"
-           /\ UNCHANGED <<lexvars, fcase, topstart, offs, lastdata, objs, tails, bad, queue, subs, srcbytes, cursub, res, indexed>>
+           /\ mem' = [k \in {ObjStms[y].n : y \in 1..Len(ObjStms)} |->
+                        LET S == {x \in 1..Len(objs) : objs[x].n = k /\ objs[x].via = 0}
+                            stm == objs[CHOOSE x \in S : \A y \in S : objs[y].off <= objs[x].off]
+                        IN StmMembers(SubOf(k), stm)]
+           /\ UNCHANGED <<lexvars, fcase, topstart, offs, lastdata, bad, queue, srcbytes, cursub, res, indexed>>
 Finish2 == /\ phase = "index"
-           /\ res' = [n \in Mentioned |-> ResolveRaw(n)] /\ phase' = "pages"
-           /\ UNCHANGED <<lexvars, fcase, topstart, offs, lastdata, objs, tails, bad, queue, subs, srcbytes, cursub, secs, indexed>>
+           /\ res' = [n \in Mentioned |-> [ty |-> EntryOf(n).ty] @@ ResolveRaw(n)] /\ phase' = "pages"
+           /\ UNCHANGED <<lexvars, fcase, topstart, offs, lastdata, bad, queue, srcbytes, cursub, secs, indexed, mem>>
 
 IsNull(n) == EntryOf(n).ty \in {0 - 1, 0}
 Deref(v) == IF v.t = "ref" THEN (LET r == Resolve(v.n) IN IF r.found THEN r.val ELSE [t |-> "null"]) ELSE v
@@ -332,21 +358,22 @@ HeaderOK == Len(FB) >= 8 /\ SubSeq(FB, 1, 5) = <<37, 80, 68, 70, 45>> /\ FB[6] \
 EndsWithEOF == LET RECURSIVE Back(_) Back(i) == IF i >= 1 /\ IsWs(FB[i]) THEN Back(i - 1) ELSE i
                    e == Back(Len(FB))
                IN e >= 5 /\ SubSeq(FB, e - 4, e) = <<37, 37, 69, 79, 70>>
-InUse == {n \in Mentioned : EntryOf(n).ty \in {1, 2}}
+InUse == {n \in DOMAIN res : res[n].ty \in {1, 2}}
 AllVals == {objs[x].val : x \in {y \in 1..Len(objs) : Resolve(objs[y].n).found /\ Resolve(objs[y].n).val = objs[y].val}}
-            \cup UNION {{StmMembers(SubOf(s.n), s)[x].val : x \in 1..Len(StmMembers(SubOf(s.n), s))} : s \in {ObjStms[y] : y \in 1..Len(ObjStms)}}
+            \cup UNION {{mem[k][x].val : x \in 1..Len(mem[k])} : k \in DOMAIN mem}
 Problems ==
+  LET IU == InUse  AV == AllVals IN
   bad
   \cup (IF HeaderOK THEN {} ELSE {"header"})
   \cup (IF EndsWithEOF THEN {} ELSE {"no %%EOF at the end"})
   \cup (IF StartXref >= 0 THEN {} ELSE {"startxref missing or not last"})
   \cup (IF Sections # <<>> /\ \A k \in 1..Len(Sections) : Sections[k].ok THEN {} ELSE {"cross-reference section unreadable at the offset given"})
-  \cup (IF \A n \in InUse : Resolve(n).found THEN {} ELSE {"cross-reference entry does not point at its object"})
-  \cup (IF \A n \in InUse : Resolve(n).found => Resolve(n).offok THEN {} ELSE {"object stream offset table wrong"})
+  \cup (IF \A n \in IU : Resolve(n).found THEN {} ELSE {"cross-reference entry does not point at its object"})
+  \cup (IF \A n \in IU : Resolve(n).found => Resolve(n).offok THEN {} ELSE {"object stream offset table wrong"})
   \cup (IF TrailerDict.t = "dict" /\ NatOf(Get(TrailerDict, K_Size)) = MaxObj + 1 THEN {} ELSE {"/Size is not highest object number + 1"})
   \cup (IF 0 \in Mentioned /\ EntryOf(0).ty = 0 THEN {} ELSE {"object 0 is not the head of the free list"})
   \cup (IF Catalog.t = "dict" /\ TypeIs(Catalog, N_Catalog) THEN {} ELSE {"/Root is not a catalog"})
-  \cup (IF \A v \in AllVals : \A r \in Refs(v) : r \in InUse /\ Resolve(r).found THEN {} ELSE {"dangling indirect reference"})
+  \cup (IF \A v \in AV : \A r \in Refs(v) : r \in IU /\ Resolve(r).found THEN {} ELSE {"dangling indirect reference"})
   \cup (IF Len(Sections) > 1 \/ \A x, y \in 1..Len(objs) : (x # y /\ objs[x].via = 0 /\ objs[y].via = 0) => objs[x].n # objs[y].n THEN {} ELSE {"object defined twice in one revision"})
   \cup (IF \A x \in 1..Len(subs) : subs[x].ok THEN {} ELSE {"payload does not lex"})
 (* ------------------------------ page contents as payloads; the step relation ------------------------------ *)
@@ -367,11 +394,11 @@ QueuePages(want) ==
   /\ phase = "pages"
   /\ queue' = IF want THEN [x \in 1..Len(PageList) |-> [kind |-> "content", n |-> x, p |-> JoinPayloads(ContentParts(PageList[x].node), 1)]] ELSE <<>>
   /\ indexed' = TRUE /\ phase' = "next"
-  /\ UNCHANGED <<lexvars, fcase, topstart, offs, lastdata, objs, tails, bad, subs, srcbytes, cursub, secs, res>>
+  /\ UNCHANGED <<lexvars, fcase, topstart, offs, lastdata, bad, srcbytes, cursub, secs, res, mem>>
 AllDone == /\ phase = "next" /\ queue = <<>> /\ indexed
            /\ phase' = "done"
-           /\ UNCHANGED <<lexvars, fcase, topstart, offs, lastdata, objs, tails, bad, queue, subs, srcbytes, cursub, secs, res, indexed>>
+           /\ UNCHANGED <<lexvars, fcase, topstart, offs, lastdata, bad, queue, srcbytes, cursub, secs, res, indexed, mem>>
 ContentOf(x) == LET S == {y \in 1..Len(subs) : subs[y].kind = "content" /\ subs[y].n = x} IN
                 IF S = {} THEN [ok |-> FALSE, items |-> <<>>] ELSE subs[CHOOSE y \in S : TRUE]
-FileStep(wantContent) == ScanStep \/ FlushObj \/ EndBody(<<>>) \/ NextSub \/ EndSub \/ Finish1 \/ Finish2 \/ QueuePages(wantContent) \/ AllDone
+FileStep(wantContent) == ScanStep \/ FlushObj \/ FlushSub \/ EndBody(<<>>) \/ NextSub \/ EndSub \/ Finish1 \/ Finish2 \/ QueuePages(wantContent) \/ AllDone
 =============================================================================
